@@ -337,7 +337,7 @@ func runProtocol(kc *kernelCtx, blocks []*Block, only string, want map[string]bo
 		if on("C07") || on("C05") {
 			pc.p10LockOrder(s)
 		}
-		if on("C01") || on("C02") || on("C13") {
+		if on("C01") || on("C02") || on("C05") || on("C13") {
 			pc.p4Mode(s)
 		}
 		if on("C08") {
